@@ -302,12 +302,24 @@ OPS = {
     "to_bytes":   ("ibs", m_to_bytes,                       lambda I, a, b, s: I(a).to_bytes(b, s)),
     "from_bytes": ("ns",  lambda a, s: _val(a),
                    lambda I, a, s: int(I.from_bytes(m_to_bytes(a, 0, s)[1], s))),
+    "from_bytes_buffers": ("ns", lambda a, s: _val(a), lambda I, a, s: _from_bytes_buffers(I, a, s)),
     "mult_modulo_bytes": ("iim", m_mult_mod_bytes,          lambda I, a, b, m: bytes(I._mult_modulo_bytes(I(a), I(b), I(m)))),
     "mult_modulo_bytes_odd": ("nno", m_mult_mod_bytes,      lambda I, a, b, m: bytes(I._mult_modulo_bytes(I(a), I(b), I(m)))),
 }
 
+def _from_bytes_buffers(I, a, s):
+    """the same octets as bytes, as ONE caller-owned bytearray decoded twice, as a memoryview of it, and zero-padded;
+    the last element tells whether the caller's buffer still holds its octets"""
+    raw = m_to_bytes(a, 0, s)[1]
+    buf = bytearray(raw)
+    pad = (b"\x00" * 3 + raw) if s == "big" else (raw + b"\x00" * 3)
+    return (int(I.from_bytes(raw, s)), int(I.from_bytes(buf, s)), int(I.from_bytes(buf, s)), int(I.from_bytes(memoryview(buf), s)),
+            int(I.from_bytes(pad, s)), bytes(buf) == raw)
+
+
 # how a runner's result is compared with the model value
 EXPECT = {
+    "from_bytes_buffers": lambda v: (v, v, v, v, v, True),
     "eq": lambda v: (v, v, not v, not v),
     "iadd": lambda v: (v, v), "isub": lambda v: (v, v), "imul": lambda v: (v, v), "imod": lambda v: (v, v),
     "irshift": lambda v: (v, v), "ilshift": lambda v: (v, v),
